@@ -50,8 +50,10 @@ Tightness == /\ TR.mode = "loose" => \A j \in 1..Len(TR.lists) : TR.lists[j].n >
              \* (where preserve itself deviates from the input that is C01's finding, not an effect of the mode)
              /\ TR.mode = "tight" => \A j \in 1..Len(TR.lists) : ~TR.lists[j].single => (TR.lists[j].t1 = TR.lists[j].tin \/ TR.lists[j].t1 = TR.lists[j].t0)
              /\ TR.mode = "preserve" => \A j \in 1..Len(TR.lists) : TR.lists[j].t1 = TR.lists[j].t0
-SpacingVec == <<TR.same_nonblank, GapsOnlyBeforeItems, GapDirection, Tightness>>
-SpacingProp == TR.same_nonblank /\ GapsOnlyBeforeItems /\ GapDirection /\ Tightness
+\* loose: EVERY item after the first of its list ("later") is separated from the line before it by a blank line (not only "the list reads loose", which one blank line achieves)
+ItemsSeparated == TR.mode = "loose" => \A j \in 1..Len(TR.gaps) : TR.gaps[j].later => TR.gaps[j].g1 >= 1
+SpacingVec == <<TR.same_nonblank, GapsOnlyBeforeItems, GapDirection, Tightness, ItemsSeparated>>
+SpacingProp == TR.same_nonblank /\ GapsOnlyBeforeItems /\ GapDirection /\ Tightness /\ ItemsSeparated
 Init == tid \in 1..Len(Traces) /\ pc = "eval"
 Next == pc = "eval" /\ pc' = "done" /\ UNCHANGED tid
 Spec == Init /\ [][Next]_<<tid, pc>>
